@@ -136,6 +136,19 @@ theorem add_sub_phys {db : Db} (hdb : db.AllWF) {op : SameOp} {q1 q2 q : Quantit
       unfold baseMag; rw [← hv, ← hw]
       cases op <;> simp [applySame] <;> ring
 
+/-
+Not proved (full statement kept; the theorems above and below are conditional on `opSame … = .ok …`):
+  theorem add_sub_succeeds (h1 : Operand db q1) (h2 : Operand db q2)
+      (hd : ∀ qt, dim db qt q1.entries = dim db qt q2.entries)
+      (n1 n2 : every quantity type that occurs in q1 / q2 has a non-zero exponent (C04.no_zero_dimension)) :
+      ∃ v, opSame db op q1 q2 v1 v2 = .ok (q1, v)
+What is missing: the characterisation of the fold `joined` ((u, t) ∈ joined L ↔ u occurs in L ∧ t = unitTotal u L)
+that turns `unitTotal_eq_of_dims` into `sameSet (joined e1) (joined e2') = true`.  `opSame_shape` already shows
+that nothing else can fail (the matching, both `ObtainQuantity` calls succeed on known units) and
+`add_sub_value_simple` is an unconditional equation for simple operands; success on derived operands of equal
+dimensions is observed by the correspondence (streams compatible-d0 … d5), failure on different dimensions too.
+-/
+
 /-! ### hence: (a+b)-b denotes a, a+b and b+a denote the same amount -/
 
 /-- **(a+b)-b is a, exactly** (also for units with offsets: the right operand is re-expressed the same way
